@@ -9,9 +9,9 @@ pub type Accs = BTreeMap<&'static str, PropAcc>;
 
 pub trait Engine: Sync + Send + 'static {
     const NAME: &'static str;
-    fn run(&self, s: &dyn ShapeDyn, args: &Args) -> Accs;
+    fn run(&self, s: &'static dyn ShapeDyn, args: &Args) -> Accs;
     /// re-execute one recorded case, print what happens; returns true when a violation reproduces
-    fn replay(&self, _s: &dyn ShapeDyn, _case: &serde_json::Value) -> bool {
+    fn replay(&self, _s: &'static dyn ShapeDyn, _case: &serde_json::Value) -> bool {
         false
     }
     /// cost hint for load balancing (bigger first)
@@ -40,7 +40,7 @@ pub fn run_engine<E: Engine>(e: E) -> ! {
         eprintln!("MACHINERY: thorough tier needs the engines built with --features thorough");
         std::process::exit(2);
     }
-    let mut shapes = all_shapes(args.thorough() || (args.replay.is_some() && shapes::HAS_THOROUGH));
+    let mut shapes: Vec<&'static dyn ShapeDyn> = all_shapes(args.thorough() || (args.replay.is_some() && shapes::HAS_THOROUGH)).into_iter().map(|b| &*Box::leak(b)).collect();
     if let Some(path) = &args.replay {
         let txt = std::fs::read_to_string(path).expect("read replay file");
         let j: serde_json::Value = serde_json::from_str(&txt).expect("replay json");
@@ -48,8 +48,8 @@ pub fn run_engine<E: Engine>(e: E) -> ! {
         let shape = case["shape"].as_str().expect("replay.shape").to_string();
         for s in &shapes {
             if s.id() == shape {
-                let a = e.replay(s.as_ref(), &case);
-                let b = e.replay(s.as_ref(), &case);
+                let a = e.replay(*s, &case);
+                let b = e.replay(*s, &case);
                 println!("replay: reproduced={} (second run: {})", a, b);
                 if a != b {
                     println!("replay: NON-DETERMINISTIC");
@@ -64,7 +64,7 @@ pub fn run_engine<E: Engine>(e: E) -> ! {
     if let Some(o) = &args.only {
         shapes.retain(|s| s.id().contains(o.as_str()));
     }
-    shapes.sort_by_key(|s| std::cmp::Reverse(e.cost(s.as_ref())));
+    shapes.sort_by_key(|s| std::cmp::Reverse(e.cost(*s)));
     let rep = Report::new(E::NAME, &args.tier);
     let next = AtomicUsize::new(0);
     let jobs = &shapes;
@@ -78,7 +78,7 @@ pub fn run_engine<E: Engine>(e: E) -> ! {
                     report::journal_idle();
                     break;
                 }
-                let accs = e.run(jobs[i].as_ref(), &args);
+                let accs = e.run(jobs[i], &args);
                 report::journal_idle();
                 for (p, a) in accs {
                     rep.merge(p, a);
